@@ -65,6 +65,10 @@ Definition api_buildable (s : splice_info) : Prop :=
 
 Arguments N.modulo : simpl never. Arguments N.eqb : simpl never. Arguments N.div : simpl never.
 
+Lemma comps_mod (cs : list (N * N)) : Forall (fun c => fst c < 256 /\ snd c < 8589934592) cs ->
+  map (fun e => mkco (fst e) (snd e mod 8589934592)) cs = map (fun c => mkco (fst c) (snd c)) cs.
+Proof. induction 1 as [|[a b] cs [_ H] _ IH]; cbn [map fst snd] in *; [reflexivity|]. rewrite IH, N.mod_small by assumption. reflexivity. Qed.
+
 Lemma build_desc_expected eid body : wf_descriptor (Seg eid body) ->
   build_desc 1 (ops_of_desc (Seg eid body)) = expected_seg (Some 1) eid body.
 Proof.
@@ -82,12 +86,12 @@ Proof.
     destruct comps as [cs|], dur as [d|], restr as [[[[w n] a] dv]|], sub as [[x y]|];
       cbn [fold_left app apply_desc_op set_owner fst snd]; rewrite ?E13; destruct (uty =? 0);
       cbn [fold_left app apply_desc_op set_owner fst snd]; rewrite ?E13; cbn [fold_left app apply_desc_op set_owner fst snd];
-      rewrite ?(Ets true); rewrite ?N.mod_small by assumption; reflexivity.
+      rewrite ?(Ets true); rewrite ?N.mod_small by assumption; rewrite ?comps_mod by (apply Hc); reflexivity.
   - destruct comps as [cs|], dur as [d|], restr as [[[[w n] a] dv]|], sub as [[x y]|];
       cbn [fold_left app apply_desc_op set_owner fst snd]; change (13 =? SegUPIDMID) with true;
       cbn [negb fold_left app apply_desc_op set_owner fst snd]; change (13 =? SegUPIDMID) with true;
       cbn [negb fold_left app apply_desc_op set_owner fst snd];
-      rewrite ?(Ets true); rewrite ?N.mod_small by assumption; reflexivity.
+      rewrite ?(Ets true); rewrite ?N.mod_small by assumption; rewrite ?comps_mod by (apply Hc); reflexivity.
 Qed.
 
 Lemma build_cmd_expected eid body : wf_command (Insert eid body) -> supported_cmd (Insert eid body) ->
@@ -137,7 +141,8 @@ Proof.
     - destruct Hsc. }
   rewrite Ec. cbn [fold_left apply_sig_op with_cmd with_pts with_tier with_descs s_id s_cmd_type s_cmd create_scte35
                    s_tid s_ssi s_pi s_slen s_protocol s_encrypted s_enc_alg s_pts s_cw s_tier s_scl s_descs s_stuffing s_data s_other].
-  rewrite N.mod_small by assumption. rewrite map_build_desc by assumption. reflexivity.
+  assert (Hpts : expected_pts s < 8589934592) by (unfold expected_pts; destruct (si_cmd s); lia).
+  rewrite !N.mod_small by assumption. rewrite map_build_desc by assumption. reflexivity.
 Qed.
 
 (* UpdateData after that history = the canonical bytes of s; and decoding them gives back s's struct *)
